@@ -57,3 +57,33 @@ func init() {
 		return nil
 	}
 }
+
+func init() {
+	// bytes.Compare / bytes.Equal are assembly (internal/bytealg): lexicographic comparison
+	intrinsics["bytes.Compare"] = func(ex *Exec, st *State, fn *ssa.Function, args []Value, depth int) []Value {
+		a, b := args[0].(SliceV), args[1].(SliceV)
+		ea, eb := ex.sliceElems(st, a), ex.sliceElems(st, b)
+		ta, tb := make([]*Term, len(ea)), make([]*Term, len(eb))
+		for i, e := range ea {
+			ta[i] = e.(*Term)
+		}
+		for i, e := range eb {
+			tb[i] = e.(*Term)
+		}
+		lt := ex.bytesLess(ta, tb)
+		gt := ex.bytesLess(tb, ta)
+		return []Value{Ite(lt, ex.goInt(-1), Ite(gt, ex.goInt(1), ex.goInt(0)))}
+	}
+	intrinsics["bytes.Equal"] = func(ex *Exec, st *State, fn *ssa.Function, args []Value, depth int) []Value {
+		a, b := args[0].(SliceV), args[1].(SliceV)
+		if a.Len != b.Len {
+			return []Value{False()}
+		}
+		ea, eb := ex.sliceElems(st, a), ex.sliceElems(st, b)
+		r := True()
+		for i := range ea {
+			r = And(r, Eq(ea[i].(*Term), eb[i].(*Term)))
+		}
+		return []Value{r}
+	}
+}
